@@ -1,4 +1,5 @@
-/- line-protocol driver for C09: `drv_c09 expand` (model of preprocess.c) | `drv_c09 spec` (C11 6.10.3 specification).
+/- line-protocol driver for C09: `drv_c09 expand` (model of preprocess.c) | `drv_c09 spec` (C11 6.10.3 specification) |
+   `drv_c09 expandh` (model, output tokens with their hide sets).
    Core Lean only (nothing imported here may import Mathlib, or the executable will not link). -/
 import ChibiVerif.Driver.PPCmd
 
@@ -6,6 +7,7 @@ def main (args : List String) : IO UInt32 := do
   match args with
   | "expand" :: _ => ChibiVerif.Driver.ppMain false
   | "spec" :: _ => ChibiVerif.Driver.ppMain true
+  | "expandh" :: _ => ChibiVerif.Driver.ppMainH
   | _ =>
-    IO.eprintln "usage: drv_c09 expand|spec"
+    IO.eprintln "usage: drv_c09 expand|spec|expandh"
     return 2
